@@ -566,8 +566,11 @@ func (ms *Modules) Process() []error {
 	// rather we can just walk all modules and submodules *after* entries
 	// are resolved. This means we do not need to concern ourselves that
 	// an entry does not exist.
-	dvP := map[string]bool{} // cache the modules we've handled since we have both modname and modname@revision-date
 	for _, devmods := range []map[string]*Module{ms.Modules, ms.SubModules} {
+		// cache the modules we've handled since we have both modname and
+		// modname@revision-date (a module and a submodule may have the same
+		// name, so one cache for each of the two tables)
+		dvP := map[string]bool{}
 		for _, m := range inKeyOrder(devmods) {
 			if m.BelongsTo != nil && !included[m] && includedName[m.Name] {
 				// Another revision of this submodule is the included
